@@ -56,11 +56,14 @@ func baseConfig() mqtt.Config {
 // H bundles a world with the helpers the state machines share.
 type H struct {
 	*sim.World
-	rt      *rapid.T
-	prop    string
-	nTopic  int
-	labels  map[string]bool
-	genBase []*sim.World // earlier process generations
+	rt     *rapid.T
+	prop   string
+	nTopic int
+	// (the next publish gets this topic / an empty payload: emptyPayloadCut)
+	forceTopic string
+	forceEmpty bool
+	labels     map[string]bool
+	genBase    []*sim.World // earlier process generations
 	// acceptances in order, per level (Call pointers)
 	accepted [3][]*sim.Call
 	// transfers pending when this generation adopted the session
@@ -118,6 +121,9 @@ func (h *H) finish(nontrivial bool) {
 
 func (h *H) topic() string {
 	h.nTopic++
+	if h.forceTopic != "" {
+		return h.forceTopic
+	}
 	class := rapid.SampledFrom([]int{0, 0, 0, 1, 2, 3}).Draw(h.rt, "topicClass")
 	base := fmt.Sprintf("t%d", h.nTopic)
 	switch class {
@@ -132,6 +138,9 @@ func (h *H) topic() string {
 }
 
 func (h *H) payload() []byte {
+	if h.forceEmpty {
+		return []byte{}
+	}
 	class := rapid.SampledFrom([]int{0, 1, 2, 2, 2, 2, 3, 3, 4}).Draw(h.rt, "payloadClass")
 	var n int
 	switch class {
